@@ -142,6 +142,8 @@ def finish (st : St') (out : Out) (implAnswer implDump : String) : St' × String
       | some f =>
         (st2, s!"KNOWN[{out.failTag.getD (failId f)}] bookkeeping invariant broken by a step outside the guard ({repr f})")
       | none => (st2, "JUDGE C32 bookkeeping invariant broken by a guarded step: running placement off a registered worker, or assigned/count mismatch")
+    else if st.book && !st.prevInv && !inv && bookInvB out.model then
+      (st2, "JUDGE C32 this call restores the bookkeeping invariant in the model (e.g. reconcile after a re-registration) but the implementation's state is still inconsistent")
     else (st2, verdict modelLine implLine)
 
 def availIn (s : St) (id : WId) : Bool := s.workers.any fun w => w.id == id && w.isAvailable
@@ -260,6 +262,35 @@ def step (st : St') (line : String) : St' × String :=
       match g.toNat?, parseList parseSpec "," specs, parseList parseResult "," results with
       | some g, some specs, some rs => simple [.commitDeploy g specs rs] "ok"
       | _, _, _ => (st, "BADLINE")
+    | ["dgroup", g, specs, results] =>
+      -- monolithic `deploy_group`: select, deploy and book one replica after the other on the *current* state
+      match g.toNat?, parseList parseSpec "," specs, parseList parseResult "," results with
+      | some g, some specs, some rs =>
+        if ans == "noworkers" && rs.isEmpty && !(parseDump st.timeout dump).any (fun i => i.hasGroup g) then
+          simple [] "noworkers" (if s.available.isEmpty then [] else ["C33 deploy_group refused although a worker is available"])
+        else
+          let s0 : St := { s with groups := (g, specs) :: s.groups }
+          let (curEnd, js) := rs.foldl (fun (acc : St × List String) r =>
+            let (cur, js) := acc
+            let j1 := if availIn cur r.worker then [] else
+              [s!"C33 deploy_group placed {r.replica} on worker {r.worker} which is not available at that moment"]
+            let j2 := match specs.find? (fun p => (replicaNames p).contains r.replica) with
+              | some p => match p.affinity with
+                | some a => if availIn cur a && r.worker != a then
+                    [s!"C33 deploy_group: pinned {r.replica} went to {r.worker} although {a} is available"] else []
+                | none => []
+              | none => [s!"C33 deploy_group produced an unrequested replica {r.replica}"]
+            (commitResult g cur r, js ++ j1 ++ j2)) (s0, [])
+          let complete := rs.map (·.replica) == specs.flatMap replicaNames
+          let answer := if complete then "ok" else "noworkers"
+          let j3 := if !complete && !curEnd.available.isEmpty then
+            ["C33 deploy_group gave up although a worker was still available"] else []
+          simple [.commitDeploy g specs rs] answer (js ++ j3)
+      | _, _, _ => (st, "BADLINE")
+    | ["reconcile", mode] =>
+      let redeploy := mode == "ok"
+      let n := if redeploy then (reconcileCandidates s).length else 0
+      finish st { modelAnswer := s!"n:{n}", model := reconcile s redeploy } ans dump
     | ["tdplan", g] =>
       match g.toNat? with
       | some g =>
